@@ -24,6 +24,7 @@ TRUSTED = [
 ]
 
 FUEL = 4000
+OPS_COUNTED = ["band", "bor", "bxor", "abs", "min", "max", "fdiv", "fmod"]
 
 
 def ev_str(evs):
@@ -162,7 +163,7 @@ def e_compare(ctx, key, src, passes, res, in_domain):
 
 
 def run(ctx: Ctx) -> int:
-    ctx.prove(["Reduino.Props.C01"])
+    ctx.prove(["Reduino.Props.C01", "Reduino.GenOb.Ops"])
     common.fresh_import()
     rng = ctx.rng
     progs = []
@@ -192,6 +193,9 @@ def run(ctx: Ctx) -> int:
     norm = lambda text: [" ".join(l.split()) for l in text.split("\n") if l.strip() and not l.strip().startswith("//")]
     for p, src, sx, n, (cpp, exc), res, t, rpy, rc, t2 in zip(progs, srcs, sxs, passes, outs, results, mt, mpy, mc, two):
         ctx.count("programs" + ("-with-promotion" if t2 else ""))
+        for opn in OPS_COUNTED:
+            if f"(bin {opn} " in sx or f" {opn} (" in sx or f"({opn} " in sx:
+                ctx.count("programs-using:" + opn)
         if t2 and t.startswith("ok") and not t.endswith(" in"):
             ctx.tie_diff("generator invariant (promotion programs are in InF2)", {"script": src}, t[-4:], "")
         replay = {"script": src, "passes": n}
